@@ -49,6 +49,16 @@ func c05Run(F int, lens []int, extra int, counters bool) {
 		acc.Encrypt(bytes.NewBuffer(append([]byte{}, P[j]...)))
 		ctl2.Encrypt(bytes.NewBuffer(append([]byte{}, P[j]...)))
 	}
+	// a frame the peer sent EARLIER in this session (any earlier counter value) is also on
+	// the table: replaying it later must fail although key and direction are right
+	if counters {
+		old := verif.U64("c-old")
+		verif.Assume(old < c0)
+		saved := ctl.encryptCount
+		ctl.encryptCount = old
+		ctl.Encrypt(bytes.NewBuffer(verif.Bytes("p-old", lens[verif.Choice("plen-old", len(lens))])))
+		ctl.encryptCount = saved
+	}
 	L := verif.Choice("stream-len", total+extra+1)
 	S := verif.Bytes("S", L)
 	verif.MakeCap(total + extra)
@@ -131,15 +141,25 @@ func c05Scripted(F, slots int, lens []int) {
 		r, _ = ctl2.Encrypt(bytes.NewBuffer(append([]byte{}, P[j]...)))
 		O[j], _ = ioutil.ReadAll(r)
 	}
+	// a frame from earlier in the session (arbitrary earlier counter)
+	old := verif.U64("c-old")
+	verif.Assume(old < c0)
+	ctl.encryptCount = old
+	er, _ := ctl.Encrypt(bytes.NewBuffer(append([]byte{}, P[0]...)))
+	E, _ := ioutil.ReadAll(er)
+	ctl.encryptCount = c0 + uint64(F)
 	S := []byte{}
 	script := ""
 	k := 1 + verif.Choice("slots", slots)
 	for i := 0; i < k; i++ {
 		id := string(rune('0' + i))
-		src := verif.Choice("src"+id, 3*F)
+		src := verif.Choice("src"+id, 3*F+1)
 		j := src % F
 		var f []byte
 		switch src / F {
+		case 3:
+			f = append([]byte{}, E...)
+			script += "EARLIER"
 		case 0:
 			f = append([]byte{}, W[j]...)
 			script += "W" + string(rune('0'+j))
